@@ -33,6 +33,8 @@ def configs(tier, seed):
     cfgs.append(dict(name='%s/writer' % st, strategy=st, mode='writer', max='inf'))
     # the reactor thread's other dealings with the cache: the instrumentation tick reads the size and stores self-metrics
     cfgs.append(dict(name='%s/ticks' % st, strategy=st, mode='ticks', max='inf'))
+    # long histories (hundreds of operations, dozens of drains) under a handful of schedules
+    cfgs.append(dict(name='%s/long' % st, strategy=st, mode='long', max='inf' if STRATEGIES.index(st) % 2 else 40))
   return cfgs
 
 
@@ -203,6 +205,41 @@ def run_config(cfg, res):
   ns = boot.boot('carbon-cache', {'CACHE_WRITE_STRATEGY': cfg['strategy'], 'MAX_CACHE_SIZE': cfg.get('max', 'inf'), 'USE_FLOW_CONTROL': False})
   if cfg.get('mode') == 'writer':
     return run_writer_config(cfg, res, cachesim.World(ns, trace_files=('cache.py', 'events.py', 'writer.py')))
+  if cfg.get('mode') == 'long':
+    from vlib import sched as S
+    world = cachesim.World(ns)
+    r = gen.rng(cfg['seed'], 'C02l', cfg['name'])
+    for i in range(6 if cfg['tier'] == 'quick' else 40):
+      nm = r.randint(2, 8)
+      metrics = ['m%d' % k for k in range(nm)]
+      ops = []
+      for _ in range(r.randint(150, 300)):
+        c = r.random()
+        if c < 0.8:
+          ops.append(('store', r.choice(metrics), 100 + r.randrange(12) + (0.5 if r.random() < 0.1 else 0)))
+        elif c < 0.93:
+          ops.append(('query', r.choice(metrics)))
+        else:
+          ops.append(('bulk', r.sample(metrics, r.randint(1, nm))))
+      ndr = r.randint(20, 60)
+      res.count('long_histories')
+      for policy, desc in [(S.DeviationPolicy({}), 'baseline'), (S.DeviationPolicy({0: 1}), 'mirror')] + \
+                          [(S.RandomPolicy(gen.rng(r.random(), 'rp'), p=p), 'random(p=%s)' % p) for p in (0.02, 0.05, 0.2, 0.5, 0.5)]:
+        h = world.run(ops, ('drains', ndr), policy=policy, timeout=120)
+        res.count('schedules_executed')
+        res.maxc('max_decisions_in_a_schedule', h.decisions)
+        for k, v in h.window_hits.items():
+          res.count('window_' + k, v)
+        res.count('lockfree_invariant_evaluations', h.lockfree_points)
+        if h.sched_error is not None:
+          res.inconc('%s: %s' % (type(h.sched_error).__name__, h.sched_error))
+          return
+        res.case((hash(repr(ops)), h.trace_hash), nontrivial=h.switches >= 2)
+        for sig, msg in oracle(h):
+          res.violation(cfg['strategy'] + '/long/' + sig, '%s [strategy %s, schedule %s deviations=%r] history of %d operations, %d drains' % (
+            msg, cfg['strategy'], desc, h.deviations, len(ops), ndr), dict(ops=ops, ndr=ndr, deviations=h.deviations),
+            case=dict(ops=ops, ndr=ndr, deviations=h.deviations))
+    return
   if cfg.get('mode') == 'ticks':
     world = cachesim.World(ns, trace_files=('cache.py', 'events.py', 'instrumentation.py'))
     r = gen.rng(cfg['seed'], 'C02t', cfg['name'])
